@@ -10,7 +10,7 @@ mkdir -p $D/v && cp /verif/KNOWN_FINDINGS.json $D/v/
 (cd $D/repo && go build ./... 2>&1 | head -5)
 rc=0
 for p in ${props//,/ }; do
-  out=$(VERIF_REPO=$D/repo VERIF_DIR=$D/v /verif/bin/pulsarcheck -property $p 2>&1); r=$?
+  out=$(VERIF_REPO=$D/repo VERIF_DIR=$D/v ${PULSARCHECK:-/verif/bin/pulsarcheck} -property $p 2>&1); r=$?
   echo "$out" | grep -v "^VIOLATION\|^KNOWN-FINDING" | head -${LINES_MAX:-3} | cut -c1-${WIDTH:-420}
   echo "== $p exit=$r"
   [ $r -ne 0 ] && rc=1
